@@ -944,6 +944,12 @@ func (s *Session) BuildFiles(filenames []string, pkgObj string, cwd string) erro
 // BuildProject builds a command project (one with a main method) or
 // builds a test project (one with a synthesized test main package).
 func (s *Session) BuildProject(pkg *PackageData) (*compiler.Archive, error) {
+	// The parsed sources are modified while they are prepared and the archives
+	// are compiled for one particular project (its generic instances, its type
+	// context), so neither can be reused for another project of the session.
+	s.sources = make(map[string]*sources.Sources)
+	s.UpToDateArchives = make(map[string]*compiler.Archive)
+
 	// ensure that runtime for gopherjs is imported
 	pkg.Imports = append(pkg.Imports, `runtime`)
 
